@@ -48,7 +48,8 @@ CHECKS = {
     "C20": ("F", "property-based testing / fuzzing of generated factory configurations (valid and invalid) with exception bucketing",
             "Exploration: generated valid factories over the widest grammar run under an event-bounded step loop (any escaping exception "
             "or >20000 events per instant is a violation, bucketed by exception type and innermost library frame) plus generated invalid "
-            "configurations that must be rejected.", "Trusted: SimPy kernel; the outside ledger (instance-level wrappers around reserve_put/reserve_get/put/get/cancel of every store); public state items/ready_items/stats. Valid domain = constructor signatures and parameter docs; known crash signatures are listed in known_findings.json.", "DESIGN.md §4 C20"),
+            "configurations that must be rejected; plus well-formed Engine-S operation histories on every store / edge class (no call made "
+            "with a live reservation of the caller and no library process may raise).", "Trusted: SimPy kernel; the outside ledger (instance-level wrappers around reserve_put/reserve_get/put/get/cancel of every store); public state items/ready_items/stats. Valid domain = constructor signatures and parameter docs; known crash signatures are listed in known_findings.json.", "DESIGN.md §4 C20"),
     "C08": ("F", "property-based testing: generated factories, ledger-derived per-item timing oracle (pull, delay draw, ready, push)",
             "Exploration: generated factories with work_capacity 1-3, all delay-source kinds, congestion; capacity invariant after every "
             "kernel event, one delay draw per pulled item in the kernel step of the pull, no push before t_pull+d (exact), and at every "
@@ -82,12 +83,15 @@ CHECKS = {
     "C18": ("F", "property-based testing: generated factories, counters / averages / cycle times recomputed from the outside ledger",
             "Exploration: generated factories over all edge kinds and end times; processed / received / generated / discarded counters "
             "equal ledger counts, time-averaged edge content equals the integral of puts-gets over [0,T]/T, total_cycle_time equals "
-            "the sum of reception - creation stamps, stamps are consistent and monotone along every item's route.",
+            "the sum of reception - creation stamps, stamps are consistent and monotone along every item's route (entry stamp == pull "
+            "instant, exit stamp == push instant); intermediate edge reports taken mid-run (twice) equal the integral so far; a quarter of "
+            "the cases are Engine-S histories checking every store's running average.",
             "Trusted: SimPy kernel; the outside ledger (instance-level wrappers on every store); harness-supplied delay sources that log every consultation; public stats. Creation time is the item's own stamp bracketed by generation and first push.", "DESIGN.md §4 C18"),
     "C19": ("F", "property-based testing: generated factories, differential across four executions (same interpreter x2, other hash seed, perturbed heap)",
             "Exploration: every generated factory is executed twice in-process and in child interpreters with a different PYTHONHASHSEED "
             "and after a heap-shifting pre-allocation; canonical traces and final statistics must be identical; kernel time and ledger "
-            "times never decrease.", "Trusted: SimPy kernel; the outside ledger (instance-level wrappers on every store); harness-supplied delay sources that log every consultation; public stats. Hash-seed and address dependence are sampled, not enumerated.", "DESIGN.md §4 C19"),
+            "times never decrease; four of five cases are Engine-S store histories (incl. the plain PriorityReqStore) compared the same "
+            "way through the harness log.", "Trusted: SimPy kernel; the outside ledger (instance-level wrappers on every store); harness-supplied delay sources that log every consultation; public stats. Hash-seed and address dependence are sampled, not enumerated.", "DESIGN.md §4 C19"),
     "C12": ("K", "property-based testing: generated conveyor geometries and producer/consumer scripts, validity predicates on put/offer/get instants",
             "Exploration: continuous (incl. lengths that are no multiple of the item length) and slotted conveyors, both accumulation "
             "modes, regular / bursty / irregular arrivals, free flow and stalls, plus conveyors embedded in generated factories; order, "
@@ -136,9 +140,9 @@ def main():
             "add_only": True,
         },
         "engines": [
-            {"name": "S", "path": "vlib/harness_store.py", "serves_properties": [p for p in CHECKS if CHECKS[p][0] == "S"],
+            {"name": "S", "path": "vlib/harness_store.py", "serves_properties": [p for p in CHECKS if CHECKS[p][0] == "S"] + ["C18", "C19", "C20"],
              "kind_free_text": "interpreter for generated operation histories on reservable stores / store-backed edges"},
-            {"name": "F", "path": "vlib/harness_factory.py", "serves_properties": [p for p in CHECKS if CHECKS[p][0] == "F"],
+            {"name": "F", "path": "vlib/harness_factory.py", "serves_properties": [p for p in CHECKS if CHECKS[p][0] == "F"] + ["C12"],
              "kind_free_text": "generated whole factories (nodes+edges) with an outside ledger on every store"},
             {"name": "K", "path": "vlib/harness_conv.py", "serves_properties": [p for p in CHECKS if CHECKS[p][0] == "K"],
              "kind_free_text": "conveyor between scripted producer/consumer, kinematic reference model"},
